@@ -195,12 +195,17 @@ impl BinaryMatrix for DenseBinaryMatrix {
 
     fn get_row_iter(&self, row: usize, start_col: usize, end_col: usize) -> OctetIter<'_> {
         let (first_word, first_bit) = self.bit_position(row, start_col);
-        let (last_word, _) = self.bit_position(row, end_col);
+        // end_col is exclusive: only the words up to the one holding end_col - 1 are read
+        let word_count = if end_col > start_col {
+            Self::word_offset(end_col - 1) - Self::word_offset(start_col) + 1
+        } else {
+            0
+        };
         OctetIter::new_dense_binary(
             start_col,
             end_col,
             first_bit,
-            &self.elements[first_word..=last_word],
+            &self.elements[first_word..first_word + word_count],
         )
     }
 
